@@ -89,6 +89,12 @@ pub struct DataFile {
     pub path_value: PathAwareValue,
     pub name: String,
 }
+// ---- const FAILURE_STATUS_CODE
+pub const FAILURE_STATUS_CODE: i32 = 19;
+// ---- const SUCCESS_STATUS_CODE
+pub const SUCCESS_STATUS_CODE: i32 = 0;
+// ---- const ERROR_STATUS_CODE
+pub const ERROR_STATUS_CODE: i32 = 5;
 // ---- raw spec_validate.rs
 // shared by the `validate` and `validate_data` groups (C06): what "some (rules file, data file) evaluation was FAIL" means.
 // file_sem: the file status eval_rules_file computes for a rules file on one document (uninterpreted; C01 / C02 are about it)
@@ -185,79 +191,119 @@ pub fn print_verbose_tree<'value>(root: &EventRecord<'value>, writer: &mut Write
 // Err = the serde error that `?` propagates. ASSUMPTION: writing to the output does not fail (the real code panics there)
 #[verifier::external_body]
 pub fn verif_write_json<'value>(writer: &mut Writer, root: &EventRecord<'value>) -> (r: Result<()>) { unimplemented!() }
-// ---- fn guard/src/commands/validate.rs::evaluate_against_data_input
-fn evaluate_against_data_input<'r>(
-    _data_type: Type,
-    output: OutputFormatType,
-    extra_data: &Option<PathAwareValue>,
-    data_files: &'r Vec<DataFile>,
-    rules: &RulesFile<'_>,
-    rules_file_name: &'r str,
-    verbose: bool,
-    print_json: bool,
-    summary_table: BitFlags<SummaryType>,
-    mut write_output: &mut Writer,
-) -> (res: Result<Status>)
-    ensures
-        res is Ok ==> res->Ok_0 == overall_spec(*rules, *extra_data, data_files@),
-{
-    let mut overall = Status::PASS;
-        let reporter = verif_reporter(summary_table);
-
-    for file in it: data_files
-        invariant
-            it.seq().len() == data_files@.len(),
-            forall|i: int| 0 <= i < it.seq().len() ==> *(#[trigger] it.seq()[i]) == data_files@[i],
-            overall == (if some_fail(*rules, *extra_data, data_files@, it.index@ as int) { Status::FAIL } else { Status::PASS }),
-{
-        let each = match &extra_data {
-            Some(data) => data.clone().merge(file.path_value.clone())?,
-            None => file.path_value.clone(),
-        };
-        let traversal = Traversal::from(&each);
-        let mut root_scope = root_scope(rules, Rc::new(each.clone()));
-        let status = eval_rules_file(rules, &mut root_scope, Some(&file.name))?;
-
-        let root_record = root_scope.reset_recorder().extract();
-
-        reporter.report_eval(
-            write_output,
-            status,
-            &root_record,
-            rules_file_name,
-            &file.name,
-            &file.content,
-            &traversal,
-            output,
-        )?;
-
-        if verbose {
-            print_verbose_tree(&root_record, write_output);
-        }
-
-        if print_json {
-                        verif_write_json(write_output, &root_record)?;
-        }
-
-        if status == Status::FAIL {
-            overall = Status::FAIL
-        }
-    }
-    Ok(overall)
+// ---- raw prelude_structured.rs
+// hand-written prelude of the `structured` group (C06, structured validate path): report assembly and serialisation are
+// opaque; only the exit code fold of CommonStructuredReporter::report is decided.
+#[verifier::external_body]
+pub struct FileReport<'value> { _p: &'value u8 }
+impl<'value> FileReport<'value> {
+    // contract of the real function: U-combine (group `report`)
+    #[verifier::external_body]
+    pub fn combine(&mut self, report: FileReport<'value>) { unimplemented!() }
 }
-// ---- canary canary:pre:evaluate_against_data_input
-fn evaluate_against_data_input__canary<'r>(
-    _data_type: Type,
-    output: OutputFormatType,
-    extra_data: &Option<PathAwareValue>,
-    data_files: &'r Vec<DataFile>,
-    rules: &RulesFile<'_>,
-    rules_file_name: &'r str,
-    verbose: bool,
-    print_json: bool,
-    summary_table: BitFlags<SummaryType>,
-    mut write_output: &mut Writer,
-) -> (res: Result<Status>)
+// stands for `FileReport { name: &each.name, ..Default::default() }`
+#[verifier::external_body]
+pub fn verif_file_report<'value>(name: &'value String) -> (r: FileReport<'value>) { unimplemented!() }
+
+// contract of the real function: U-simpl (group `report`)
+#[verifier::external_body]
+pub fn simplified_json_from_root<'value>(root: &EventRecord<'value>) -> (r: Result<FileReport<'value>>) { unimplemented!() }
+
+#[verifier::external_body]
+pub struct SarifReport { _p: u8 }
+impl SarifReport {
+    #[verifier::external_body]
+    pub fn new<'value>(records: &Vec<FileReport<'value>>) -> (r: SarifReport) { unimplemented!() }
+}
+// stand for serde_yaml::to_writer / serde_json::to_writer_pretty (Err = the serialisation error `?` propagates)
+#[verifier::external_body]
+pub fn verif_to_writer<T>(w: &mut Writer, v: &T) -> (r: Result<()>) { unimplemented!() }
+
+pub open spec fn row_fail(rules: Seq<(RulesFile, &str)>, d: DataFile, m: int) -> bool {
+    exists|j: int| 0 <= j < m && j < rules.len() && file_sem((#[trigger] rules[j]).0, d.path_value) == Status::FAIL
+}
+pub open spec fn any_fail(rules: Seq<(RulesFile, &str)>, data: Seq<DataFile>, n: int) -> bool {
+    exists|i: int| 0 <= i < n && i < data.len() && row_fail(rules, #[trigger] data[i], rules.len() as int)
+}
+// mirrors `use crate::rules;` of structured.rs: the signature says rules::Result<i32>
+pub mod rules { pub type Result<R> = super::Result<R>; }
+
+// what C06 states about the exit code of a structured run that started with code e0 (0, or 5 after a parse error) once
+// `failed` says whether some evaluation was FAIL: no FAIL -> e0 unchanged; FAIL and everything parsed -> 19;
+// FAIL after a parse error -> not 0 (the property leaves 5 vs 19 open there)
+pub open spec fn code_ok(e0: i32, failed: bool, code: i32) -> bool {
+    &&& (!failed ==> code == e0)
+    &&& (failed && e0 == SUCCESS_STATUS_CODE ==> code == FAILURE_STATUS_CODE)
+    &&& (failed ==> (code == FAILURE_STATUS_CODE || (e0 != SUCCESS_STATUS_CODE && code == e0)))
+}
+// ---- type guard/src/commands/reporters/validate/structured.rs::CommonStructuredReporter
+struct CommonStructuredReporter<'reporter> {
+    pub rules: Vec<(RulesFile<'reporter>, &'reporter str)>,
+    pub data: Vec<DataFile>,
+    pub writer: &'reporter mut Writer,
+    pub exit_code: i32,
+    pub output: OutputFormatType,
+}
+// ---- fn guard/src/commands/reporters/validate/structured.rs::report
+impl<'reporter> CommonStructuredReporter<'reporter> {
+    fn report(&mut self) -> (res: rules::Result<i32>)
+    requires
+        old(self).output is YAML || old(self).output is JSON || old(self).output is Sarif,
+    ensures
+        res is Ok ==> code_ok(old(self).exit_code, any_fail(old(self).rules@, old(self).data@, old(self).data@.len() as int), res->Ok_0),
+{
+        let mut records = vec![];
+        for each in it: &self.data
+        invariant
+            self.data == old(self).data, self.rules == old(self).rules, self.output == old(self).output,
+            it.seq().len() == self.data@.len(),
+            forall|i: int| 0 <= i < it.seq().len() ==> *(#[trigger] it.seq()[i]) == self.data@[i],
+            code_ok(old(self).exit_code, any_fail(self.rules@, self.data@, it.index@ as int), self.exit_code),
+{
+                        let mut file_report: FileReport = verif_file_report(&each.name);
+
+                        let ghost outer_i = it.index@ as int;
+for (rule, _) in it: &self.rules
+            invariant
+                self.data == old(self).data, self.rules == old(self).rules, self.output == old(self).output,
+                it.seq().len() == self.rules@.len(),
+                forall|j: int| 0 <= j < it.seq().len() ==> *(#[trigger] it.seq()[j]) == self.rules@[j],
+                code_ok(old(self).exit_code, any_fail(self.rules@, self.data@, outer_i) || row_fail(self.rules@, *each, it.index@ as int), self.exit_code),
+{
+                let mut root_scope = root_scope(rule, Rc::new(each.path_value.clone()));
+
+                if let Status::FAIL = eval_rules_file(rule, &mut root_scope, Some(&each.name))? {
+                    self.exit_code = FAILURE_STATUS_CODE;
+                }
+
+                let root_record = root_scope.reset_recorder().extract();
+                let report = simplified_json_from_root(&root_record)?;
+                file_report.combine(report);
+            }
+
+            records.push(file_report);
+        }
+
+        match self.output {
+            OutputFormatType::YAML => verif_to_writer(self.writer, &records)?,
+            OutputFormatType::JSON => verif_to_writer(self.writer, &records)?,
+            OutputFormatType::Sarif => {
+                let report = SarifReport::new(&records);
+                verif_to_writer(self.writer, &report)?
+            }
+            _ => unreachable!(),
+        };
+
+        if self.exit_code == FAILURE_STATUS_CODE && records.len() > 1 { return Ok(0); }
+        Ok(self.exit_code)
+    }
+}
+// ---- canary canary:pre:report
+impl<'reporter> CommonStructuredReporter<'reporter> {
+    fn report__canary(&mut self) -> (res: rules::Result<i32>)
+    requires
+        old(self).output is YAML || old(self).output is JSON || old(self).output is Sarif,
 { assert(false); vstd::pervasive::unreached() }
+}
 } // verus!
 fn main() {}
